@@ -203,6 +203,63 @@ Example ok_means_solved_oracle_allowance_nonvacuous :
              = Ok (IOk 1, [1%R], g)).
 Proof. split; [lra|]. split; [exact ex_eA_c|]. split; [exact ex_amp|exact cg_run_flx]. Qed.
 
+(* the same for the entry point the correspondence check runs ([run_sparse]: the solvers on a CSC matrix with the model's
+   own products), every constant computable from the stored matrix: NA = ||A||_F, eA = gam_m || |A| ||_F (Frobenius
+   norms), m = the longest stored row *)
+Theorem run_sparse_ok_means_solved_rounded : forall (u : R), (0 <= u < 1)%R ->
+  forall (fadd fsub fmul fdiv : R -> R -> R) (fsqrt : R -> R),
+  (forall x y : R, exists d : R, (Rabs d <= u)%R /\ fadd x y = ((x + y) * (1 + d))%R) ->
+  (forall x y : R, exists d : R, (Rabs d <= u)%R /\ fsub x y = ((x - y) * (1 + d))%R) ->
+  (forall x y : R, exists d : R, (Rabs d <= u)%R /\ fmul x y = (x * y * (1 + d))%R) ->
+  (forall x y : R, y <> 0%R -> exists d : R, (Rabs d <= u)%R /\ fdiv x y = (x / y * (1 + d))%R) ->
+  (forall a b : R, fadd 0%R (fmul a b) = fmul a b) ->
+  (forall x : R, (0 <= x)%R -> exists d : R, (Rabs d <= u)%R /\ fsqrt x = (R_sqrt.sqrt x * (1 + d))%R) ->
+  forall (s : sparse (ARm fadd fsub fmul fdiv)) (n m : nat) (sv : solver) (b x0 : list R) (max : nat) (tol : R) (k : nat)
+    (x : list R) (g : ghost (SARm fadd fsub fmul fdiv fsqrt)),
+  wfS s -> sp_rows s = n -> sp_cols s = n ->
+  (forall i, (i < n)%nat -> (length (row_entries s i) <= m)%nat) -> (INR m * u < 1)%R ->
+  (2 * INR (n + 1) * u < 1)%R -> sv <> QMR ->
+  run_sparse (A := SARm fadd fsub fmul fdiv fsqrt) sv s b x0 max tol = Ok (IOk k, x, g) ->
+  (k <= max)%nat /\
+  (N2 n (fun i => vf b i - Ax n (sp_rentry fadd fsub fmul fdiv s) (vf x) i)
+   <= tol * (kap u n * (1 + rho u) * (1 + gN u n)) * nzR (N2 n (vf b))
+      + (4 * INR (updates sv k) + 1)
+        * ((rho u * frob n (sp_rentry fadd fsub fmul fdiv s) + gam u m * frob n (sp_rabs fadd fsub fmul fdiv s))
+             * (kap u n * t_X (g_X g)) + rho u * N2 n (vf b))
+        / (1 - rho u) ^ (updates sv k + 1))%R.
+Proof. intros u Hu fadd fsub fmul fdiv fsqrt Ha Hs Hm Hd H0 Hq s n m sv b x0 max tol k x g. exact (run_sparse_ok_means_solved_rounded_lemma u Hu fadd fsub fmul fdiv fsqrt Ha Hs Hm Hd H0 Hq s n m sv b x0 max tol k x g). Qed.
+Check run_sparse_ok_means_solved_rounded : forall (u : R), (0 <= u < 1)%R ->
+  forall (fadd fsub fmul fdiv : R -> R -> R) (fsqrt : R -> R),
+  (forall x y : R, exists d : R, (Rabs d <= u)%R /\ fadd x y = ((x + y) * (1 + d))%R) ->
+  (forall x y : R, exists d : R, (Rabs d <= u)%R /\ fsub x y = ((x - y) * (1 + d))%R) ->
+  (forall x y : R, exists d : R, (Rabs d <= u)%R /\ fmul x y = (x * y * (1 + d))%R) ->
+  (forall x y : R, y <> 0%R -> exists d : R, (Rabs d <= u)%R /\ fdiv x y = (x / y * (1 + d))%R) ->
+  (forall a b : R, fadd 0%R (fmul a b) = fmul a b) ->
+  (forall x : R, (0 <= x)%R -> exists d : R, (Rabs d <= u)%R /\ fsqrt x = (R_sqrt.sqrt x * (1 + d))%R) ->
+  forall (s : sparse (ARm fadd fsub fmul fdiv)) (n m : nat) (sv : solver) (b x0 : list R) (max : nat) (tol : R) (k : nat)
+    (x : list R) (g : ghost (SARm fadd fsub fmul fdiv fsqrt)),
+  wfS s -> sp_rows s = n -> sp_cols s = n ->
+  (forall i, (i < n)%nat -> (length (row_entries s i) <= m)%nat) -> (INR m * u < 1)%R ->
+  (2 * INR (n + 1) * u < 1)%R -> sv <> QMR ->
+  run_sparse (A := SARm fadd fsub fmul fdiv fsqrt) sv s b x0 max tol = Ok (IOk k, x, g) ->
+  (k <= max)%nat /\
+  (N2 n (fun i => vf b i - Ax n (sp_rentry fadd fsub fmul fdiv s) (vf x) i)
+   <= tol * (kap u n * (1 + rho u) * (1 + gN u n)) * nzR (N2 n (vf b))
+      + (4 * INR (updates sv k) + 1)
+        * ((rho u * frob n (sp_rentry fadd fsub fmul fdiv s) + gam u m * frob n (sp_rabs fadd fsub fmul fdiv s))
+             * (kap u n * t_X (g_X g)) + rho u * N2 n (vf b))
+        / (1 - rho u) ^ (updates sv k + 1))%R.
+Print Assumptions run_sparse_ok_means_solved_rounded.
+Example run_sparse_ok_means_solved_rounded_nonvacuous :
+  wfS sx1 /\ sp_rows sx1 = 1%nat /\ sp_cols sx1 = 1%nat /\
+  (forall i, (i < 1)%nat -> (length (row_entries sx1 i) <= 1)%nat) /\ (INR 1 * ux < 1)%R /\
+  (2 * INR (1 + 1) * ux < 1)%R /\ CG <> QMR /\
+  (exists g, run_sparse (A := SARm xadd xsub xmul xdiv xsqrt) CG sx1 [2%R] [0%R] 2 (/ 2)%R = Ok (IOk 1, [1%R], g)).
+Proof.
+  split; [exact sx1_wf|]. split; [reflexivity|]. split; [reflexivity|]. split; [exact sx1_rows|].
+  split; [exact ex_m_small|]. split; [exact ex_n_small|]. split; [discriminate|exact cg_run_flx].
+Qed.
+
 (* the model's compressed-column product meets the accuracy hypothesis with eA = gam_m || |A| ||_2 *)
 Theorem sparse_product_accuracy : forall (u : R), (0 <= u < 1)%R ->
   forall (fadd fsub fmul fdiv : R -> R -> R),
